@@ -242,15 +242,16 @@ func vwalkAll(pre string, bt *btree, want int) {
 // Add of an arbitrary key is accepted iff it is larger, refused (false) iff equal, and panics
 // iff smaller than the last key.
 //
-//symgo:harness prop=C10 tier=quick shards=4 timeout=300 ttimeout=1700 bounds=split_2..4;0..8_keys_(thorough_0..13);key_lengths_all_1|alternating_1,2_(thorough_also_2,1|all_2)_symbolic_bytes_in_an_assumed_ordering_chain;40-bit_offsets;symbolic_probe_of_1..2_bytes;one_extra_Add_of_an_arbitrary_key outside=trees_deeper_than_8_levels;keys_longer_than_2_bytes
+//symgo:harness prop=C10 tier=quick shards=4 timeout=300 ttimeout=1700 bounds=split_2..4;0..8_keys_of_1_byte|0..6_keys_of_alternating_1,2_bytes_(thorough_0..13_keys_of_1|1,2|2,1_bytes,_0..9_keys_all_2_bytes);symbolic_key_bytes_in_an_assumed_ordering_chain;40-bit_offsets;symbolic_probe_of_1..2_bytes;one_extra_Add_of_an_arbitrary_key outside=trees_deeper_than_8_levels;keys_longer_than_2_bytes
 func VerifC10Builder() {
 	split := 2 + rt.Pick("split", 3)
-	maxn, nlens := 8, 2
+	maxn, nlens := []int{8, 6}, 2
 	if rt.Thorough() {
-		maxn, nlens = 13, 4
+		maxn, nlens = []int{13, 13, 13, 9}, 4
 	}
-	n := rt.Pick("n", maxn+1)
-	lens := vlenModes[rt.Pick("lens", nlens)]
+	li := rt.Pick("lens", nlens)
+	lens := vlenModes[li]
+	n := rt.Pick("n", maxn[li]+1)
 	defer SetSplit(SetSplit(split))
 	ks := vkeys(n, lens, "")
 	ps := make([]vpair, n)
@@ -405,16 +406,37 @@ func vinitial(how int, ps []vpair) *btree {
 	return CreateBtree(st).MergeAndSave(ib.Iter())
 }
 
-func vmergeScenario(nb int, hists []vhist, maxn0 int, maxc []int, nsplit, nlens, ninit int, pfx string) {
-	split := 2 + rt.Pick("split", nsplit)
-	defer SetSplit(SetSplit(split))
-	lens := vlenModes[rt.Pick("lens", nlens)]
-	how := rt.Pick("init", ninit)
+// vcfg is a configuration of a merge scenario: split count, key length pattern, how the
+// initial tree is made
+type vcfg struct {
+	split int
+	lens  []int
+	init  int
+}
+
+// the quick tier runs a diagonal of the configuration space, thorough the full product
+var vquickCfgs = []vcfg{
+	{2, vlenModes[0], 0},
+	{3, vlenModes[1], 0},
+	{4, vlenModes[0], 1},
+	{2, vlenModes[1], 1},
+}
+
+func vpickCfg() vcfg {
+	if !rt.Thorough() {
+		return vquickCfgs[rt.Pick("cfg", len(vquickCfgs))]
+	}
+	return vcfg{2 + rt.Pick("split", 3), vlenModes[rt.Pick("lens", len(vlenModes))], rt.Pick("init", 2)}
+}
+
+func vmergeScenario(nb int, hists []vhist, maxn0 int, maxc []int, pfx string) {
+	cfg := vpickCfg()
+	defer SetSplit(SetSplit(cfg.split))
 	shape := vshape(hists, maxn0, maxc)
-	es := vuniverse(shape, lens, pfx)
+	es := vuniverse(shape, cfg.lens, pfx)
 
 	trees := make([]*btree, nb+1)
-	trees[0] = vinitial(how, vstage(es, 0))
+	trees[0] = vinitial(cfg.init, vstage(es, 0))
 	rt.Observe("levels0", trees[0].treeLevels)
 	for b := 0; b < nb; b++ {
 		ib := vbatch(es, b)
@@ -440,7 +462,9 @@ func vmergeScenario(nb int, hists []vhist, maxn0 int, maxc []int, nsplit, nlens,
 	}
 	probe := pfx + rt.Str("probe", 1+rt.Pick("plen", 2))
 	for s := nb; s >= 0; s-- {
-		vprobe(vpre(s, nb), trees[s], vstage(es, s), probe)
+		if s == nb || rt.Thorough() {
+			vprobe(vpre(s, nb), trees[s], vstage(es, s), probe)
+		}
 	}
 }
 
@@ -452,13 +476,101 @@ func vpre(s, nb int) string {
 }
 
 // C10 MergeAndSave, one batch: a stored tree (bulk-built, or grown by merging into an empty
-// tree) of 0..4 keys receives a batch of 1..2 inserts/updates/deletes (1..3, 0..6 keys in thorough).
+// tree) receives a batch of inserts/updates/deletes; the result is the model map, the old tree
+// still is the old map, all nodes are ordered and within the split count.
 //
-//symgo:harness prop=C10 tier=quick shards=8 timeout=400 ttimeout=3000 bounds=split_2|3|4;initial_tree_of_0..4_keys_(thorough_0..6)_built_by_Builder_or_by_merge_into_empty;one_batch_of_1..2_changes_(thorough_1..3)_add/update/delete_at_every_position;key_lengths_all_1|alternating_1,2_(thorough_also_2,1|all_2);symbolic_key_bytes_in_an_assumed_ordering_chain;40-bit_offsets;symbolic_probe_1..2_bytes outside=trees_deeper_than_8_levels;keys_longer_than_2_bytes;more_than_one_batch_(see_VerifC10Merge2)
+//symgo:harness prop=C10 tier=quick shards=8 timeout=400 ttimeout=3000 bounds=initial_tree_of_0..3_keys_(thorough_0..6);one_batch_of_1..2_changes_(thorough_1..3)_add/update/delete_at_every_position;quick_configurations_(split,key_lengths,initial_tree_by):(2,all_1,Builder)|(3,alternating_1/2,Builder)|(4,all_1,merge_into_empty)|(2,alternating_1/2,merge_into_empty);thorough:split_2|3|4_x_key_lengths_all_1|1,2|2,1|all_2_x_Builder|merge;symbolic_key_bytes_in_an_assumed_ordering_chain;40-bit_offsets;symbolic_probe_1..2_bytes_(old_tree_probed_in_thorough_only,_iterated_always) outside=trees_deeper_than_8_levels;keys_longer_than_2_bytes_(see_VerifC10MergePrefix);more_than_one_batch_(see_VerifC10Merge2)
 func VerifC10Merge() {
 	if rt.Thorough() {
-		vmergeScenario(1, vhist1, 6, []int{3}, 3, 4, 2, "")
+		vmergeScenario(1, vhist1, 6, []int{3}, "")
 	} else {
-		vmergeScenario(1, vhist1, 4, []int{2}, 3, 2, 2, "")
+		vmergeScenario(1, vhist1, 3, []int{2}, "")
 	}
+}
+
+// C10 MergeAndSave, two batches in sequence (the second one works on a tree shaped by the first).
+//
+//symgo:harness prop=C10 tier=thorough tshards=8 ttimeout=3000 bounds=initial_tree_of_0..4_keys;two_batches_of_1..2_changes_each;every_consistent_history_per_key_(keep/update/delete/add,_delete_then_re-add,_add_then_delete);split_2|3|4;key_lengths_all_1|1,2|2,1|all_2;Builder|merge_initial_tree;symbolic_probe outside=as_VerifC10Merge
+func VerifC10Merge2() {
+	vmergeScenario(2, vhist2, 4, []int{2, 2}, "")
+}
+
+// C10 MergeAndSave with keys that share a concrete 6-byte prefix (leaf prefix compression and
+// longer separators) and a symbolic 1..2 byte tail.
+//
+//symgo:harness prop=C10 tier=thorough tshards=8 ttimeout=3000 bounds=as_VerifC10Merge_with_0..4_initial_keys,_1..2_changes,_every_key_and_the_probe_prefixed_by_the_6_bytes_"prefix" outside=as_VerifC10Merge
+func VerifC10MergePrefix() {
+	vmergeScenario(1, vhist1, 4, []int{2}, "prefix")
+}
+
+// ------------------------------------------------------------------ RangeFrac
+
+// C10 RangeFrac: for trees of 12..16 keys with split 4 (two tree levels once merges have
+// produced half full leaves), built in four ways, and symbolic 1-byte range bounds:
+// the estimate is within [0,1], is 0 for an empty range, and never panics.
+//
+//symgo:harness prop=C10 tier=quick shards=4 timeout=300 ttimeout=1700 bounds=split_4;12..13_keys_(thorough_0..17)_1_symbolic_byte_each_in_an_assumed_ordering_chain;tree_made_by:Builder|merge_of_all_keys_into_empty|Builder_of_every_other_key_then_merge_of_the_rest|Builder_of_all_then_merge_deleting_every_third;org,end_symbolic_1_byte_each_(thorough_also_0_bytes_and_ixkey.Max_as_end) outside=other_split_counts;more_than_2_tree_levels;accuracy_of_the_estimate
+func VerifC10RangeFrac() {
+	defer SetSplit(SetSplit(4))
+	mode := rt.Pick("mode", 4)
+	var n int
+	if rt.Thorough() {
+		n = rt.Pick("n", 18)
+	} else {
+		n = 12 + rt.Pick("n", 2)
+	}
+	ks := vkeys(n, vlenModes[0], "")
+	var ps, first []vpair
+	second := &ixbuf.T{}
+	for i, k := range ks {
+		off := uint64(i + 1)
+		switch mode {
+		case 0:
+			first = append(first, vpair{k, off})
+			ps = append(ps, vpair{k, off})
+		case 1:
+			second.Insert(k, off)
+			ps = append(ps, vpair{k, off})
+		case 2:
+			if i%2 == 0 {
+				first = append(first, vpair{k, off})
+			} else {
+				second.Insert(k, off)
+			}
+			ps = append(ps, vpair{k, off})
+		case 3:
+			first = append(first, vpair{k, off})
+			if i%3 == 1 {
+				second.Delete(k, off)
+			} else {
+				ps = append(ps, vpair{k, off})
+			}
+		}
+	}
+	bt := vbuild(vstor(), first)
+	if mode != 0 {
+		bt = bt.MergeAndSave(second.Iter())
+	}
+	rt.Reach("tree-made")
+	rt.Observe("levels", bt.treeLevels)
+	rt.Assert("rangefrac/tree-count", bt.count == len(ps))
+	org, end := rt.Str("org", 1), rt.Str("end", 1)
+	if rt.Thorough() {
+		switch rt.Pick("special", 3) {
+		case 1:
+			org = ""
+		case 2:
+			end = "\xff\xff\xff\xff\xff\xff\xff\xff" // ixkey.Max
+		}
+	}
+	var r float64
+	panicked := rt.Try(func() { r = bt.RangeFrac(org, end) })
+	rt.Assert("rangefrac/no-panic", !panicked)
+	if panicked {
+		return
+	}
+	rt.Observe("frac-per-mille", int(r*1000))
+	rt.Assert("rangefrac/ge-0", r >= 0)
+	rt.Assert("rangefrac/le-1", r <= 1)
+	rt.Assert("rangefrac/empty-range-is-0", rt.Implies(org >= end, r == 0))
 }
